@@ -18,6 +18,24 @@ struct Acc {
 }
 
 impl Acc {
+    /// The same function without the capabilities-list status bit: it advertises no capabilities,
+    /// so construction must fail whatever lies behind the capabilities pointer.
+    fn case_no_list(&mut self, part: &str, bars: &Bars, caps: &[VCap], rev: bool) {
+        let mut b = c11::build(bars, caps, rev, 3);
+        c11::clear_list_bit(&mut b);
+        let (class, v, t) = c11::construct_case(&b, &[]);
+        if let Some(t) = t {
+            std::mem::forget(t);
+        }
+        vlab::mmio::set_handler(None);
+        self.evals += 1;
+        *self.classes.entry(format!("construct-no-list-bit:{}", class)).or_insert(0) += 1;
+        for (k, d) in v {
+            if self.viols.len() < 40 {
+                self.viols.push((part.to_string(), k, format!("bars {:x?} caps {:x?} present but not advertised (status bit 4 clear): {}", bars, caps, d)));
+            }
+        }
+    }
     fn case(&mut self, part: &str, bars: &Bars, caps: &[VCap], rev: bool) {
         let b = c11::build(bars, caps, rev, 3);
         let (class, v, t) = c11::construct_case(&b, caps);
@@ -88,6 +106,7 @@ fn main() {
             }
             acc.case("lists", &bars, l, false);
             acc.case("lists", &bars, l, true);
+            acc.case_no_list("lists", &bars, l, false);
         }
         frontier = next;
     }
